@@ -1702,12 +1702,12 @@ package mcp
 // ToolResultContent.MarshalJSON (C19, nested content survives encoding): every nested block is re-decoded into a
 // zero wire value, so members a block does not have (omitted on the wire) cannot be inherited from the block before it.
 //@ func (*ToolResultContent).MarshalJSON [C19]
+//@   track MarshalJSON as nested
+//@   track internal/json.Unmarshal as redecode
 //@   modifies *
-//@   assert at call internal/json.Unmarshal: @each-nested-block-is-decoded-into-a-zero-value typeIs($1, *wireContent) && $1.(*wireContent).Type == "" && $1.(*wireContent).Text == "" &&
-//@        $1.(*wireContent).MIMEType == "" && len($1.(*wireContent).Data) == 0 && $1.(*wireContent).Resource == nil && $1.(*wireContent).URI == "" && $1.(*wireContent).Name == "" &&
-//@        $1.(*wireContent).Title == "" && $1.(*wireContent).Description == "" && $1.(*wireContent).Size == nil && $1.(*wireContent).Meta == nil && $1.(*wireContent).Annotations == nil &&
-//@        len($1.(*wireContent).Icons) == 0 && $1.(*wireContent).ID == "" && $1.(*wireContent).Input == nil && $1.(*wireContent).ToolUseID == "" && len($1.(*wireContent).NestedContent) == 0 &&
-//@        $1.(*wireContent).StructuredContent == nil && !$1.(*wireContent).IsError
+//@   ensures @nested-blocks-are-emitted-as-they-were-marshalled-not-re-decoded calls(redecode) == 0
+//@   ensures @every-nested-block-is-marshalled result.1 == nil ==> calls(nested) == old(len(c.Content))
+//@   loop 1: invariant @one-raw-block-per-nested-content len(local(contentWire)) == $idx && calls(nested) == $idx && local(contentWire) != nil
 
 // Server.Connect (C13): keep-alive is started, with the configured interval, exactly when one is configured, and
 // before the session is handed to the caller.
